@@ -98,8 +98,23 @@ fn type_name(i: &Item) -> Option<String> {
 
 fn insert_type(items: &mut Vec<Item>, name: &str, kind: &str, k: usize) -> bool {
     let ident = syn::Ident::new(name, proc_macro2::Span::call_site());
+    // "opaque_impl": an opaque with its own impl block (impl-level abi_rename, a plain method and a
+    // callback-taking method) — still referenced by nothing else
+    let extra_impl: Option<Item> = if kind == "opaque_impl" {
+        let abi = format!("verifabi_{}_{{0}}", name.to_lowercase());
+        Some(parse_quote! {
+            #[diplomat::abi_rename = #abi]
+            impl #ident {
+                pub fn verif_get(&self) -> u8 { self.0 }
+                #[diplomat::attr(not(supports = "callbacks"), disable)]
+                pub fn verif_apply(&self, f: impl Fn(u32) -> u32) -> u32 { f(self.0 as u32) }
+            }
+        })
+    } else {
+        None
+    };
     let new_item: Item = match kind {
-        "opaque" => parse_quote! { #[diplomat::opaque] pub struct #ident(u8); },
+        "opaque" | "opaque_impl" => parse_quote! { #[diplomat::opaque] pub struct #ident(u8); },
         "struct" => parse_quote! { pub struct #ident { pub verif_a: u8, pub verif_b: i32 } },
         _ => parse_quote! { pub enum #ident { VerifA, VerifB, VerifC } },
     };
@@ -127,6 +142,12 @@ fn insert_type(items: &mut Vec<Item>, name: &str, kind: &str, k: usize) -> bool 
                 // position inside the module is part of what must not matter
                 let at = (k / total) % (inner.len() + 1);
                 inner.insert(at, new_item.clone());
+                if let Some(im) = &extra_impl {
+                    // the impl goes somewhere after its type: sometimes right behind it (i.e. before
+                    // other types' impl blocks), sometimes at the end of the module
+                    let at2 = if (k / 7) % 2 == 0 { at + 1 } else { inner.len() };
+                    inner.insert(at2, im.clone());
+                }
                 done = true;
             }
         }
@@ -138,7 +159,16 @@ fn insert_type(items: &mut Vec<Item>, name: &str, kind: &str, k: usize) -> bool 
 fn remove_type(items: &mut Vec<Item>, name: &str) {
     for_each_bridge(items, &mut |m| {
         if let Some((_, inner)) = &mut m.content {
-            inner.retain(|i| type_name(i).as_deref() != Some(name));
+            inner.retain(|i| {
+                if let Item::Impl(im) = i {
+                    if let syn::Type::Path(tp) = &*im.self_ty {
+                        if tp.path.is_ident(name) {
+                            return false;
+                        }
+                    }
+                }
+                type_name(i).as_deref() != Some(name)
+            });
         }
     });
 }
